@@ -6,7 +6,7 @@ from common import Report
 MANIFEST = dict(
     technique='Coq non-interference proof over all operation histories (generic footprint framework; parser and tokenizer state transformers written from the code, parametric in the statement parser / lexer, failures and cancellations included) + per-method field read/write tables regenerated from go/ssa each run and checked against the model tables by complete evaluation + seeded history exploration on one real instance (probe vs fresh instance, reflect-level state comparison after every Reset/Release/Put/Get, per-field dirtiness trace compared with the Coq model)',
     text='Theorems C08_no_carry_over / C08_tok_no_carry_over: for every statement parser (lexer) and every finite history of parse entry points, recovery parses, ApplyOptions, Reset, Release, Put/Get (tokenize, TokenizeContext, SetDialect, SetLogger, Reset, Put/Get) with arbitrary inputs, failures and cancellations, on an instance that was new or came out of the pool after arbitrary use, the outcome of any probe call equals its outcome on a new instance carrying only the options the current holder applied; C08_depth_ctx_never_left_behind: after any history depth = 0 and ctx = nil; C08_reset_is_fresh, C08_pool_get_is_fresh, C08_tok_pool_get_is_fresh: the state after Reset / Release / Put, and every instance the pool can hand out, is EQUAL to a newly constructed one (tokenizer Reset: equal to a new one with the holder\'s dialect, logger excepted). Proved once for any implementation that respects a footprint table satisfying a decidable read-before-write condition (C08_no_carry_over_any_implementation), and the model transformers are proved to respect their table; five _refuted theorems exhibit the carry-over for each repaired defect switched back on.',
-    note=common.BASE_NOTE + 'The model transformers are hand-written from the Go code; their footprint table is tied to the source by the regenerated go/ssa field-effect table (Inst_C08: every model column is played by exactly one struct field, found by its role, the depth counter being the field C02's guard recogniser identified; every other struct field is dead on entry of every method or well behaved, C08_extra_fields_admitted; no unmodelled incoming read, every boundary operation stores every field on every path) and to the behaviour by the history correspondence; statement parser and lexer are abstract (any function of the fields the table lets them read); sync.Pool modelled as handing out any previously put instance or a new one; the currentToken field is justified by a guard lemma (cursor bound checked first), not by the SSA table.',
+    note=common.BASE_NOTE + 'The model transformers are hand-written from the Go code; their footprint table is tied to the source by the regenerated go/ssa field-effect table (Inst_C08: every model column is played by exactly one struct field, found by its role, the depth counter being the field the C02 guard recogniser identified; every other struct field is dead on entry of every method or well behaved, C08_extra_fields_admitted; no unmodelled incoming read, every boundary operation stores every field on every path) and to the behaviour by the history correspondence; statement parser and lexer are abstract (any function of the fields the table lets them read); sync.Pool modelled as handing out any previously put instance or a new one; the currentToken field is justified by a guard lemma (cursor bound checked first), not by the SSA table.',
     design='6/C08')
 
 # the model's columns (Model/Reuse.v all_pfields / all_tfields), named after ROLES; the struct field that currently plays a
